@@ -579,7 +579,7 @@ class Body:
         out = []
         for blk in self.normal_blocks():
             for s in blk.stmts:
-                if s.k == "assign" and s.lhs.local == local:
+                if s.k == "assign" and s.lhs.local == local and not s.lhs.has_deref():
                     out.append((blk.i, s))
             if blk.term.k == "call" and blk.term.dest.local == local:
                 out.append((blk.i, blk.term))
